@@ -237,7 +237,14 @@ class SpecBuiltins:
     def s_contains(self, it, node, fr):
         (s, x), fr = self._args(it, node, fr)
         s = it.seq_of(s)
-        return SV(TBool, z3.Contains(s.term, z3.Unit(it.coerce(x, s.ty.elem).term)))
+        xt = it.coerce(x, s.ty.elem).term
+        c = z3.Contains(s.term, z3.Unit(xt))
+        # sequence lemma (List.mem_iff_get): x in s  <=>  exists j. 0 <= j < len s and s[j] == x.
+        # The SMT sequence theories do not derive it on their own; it is supplied per use.
+        j = it.bound("cj", z3.IntSort())
+        it.notes.add("sequence lemma assumed per use of contains(): x in s <=> exists j. s[j] == x (List.mem_iff_get)")
+        it.assume(c == z3.Exists([j], z3.And(j >= 0, j < z3.Length(s.term), s.term[j] == xt)))
+        return SV(TBool, c)
 
     def s_empty_seq(self, it, node, fr):
         ty = self.cdb.types.spec_ty(node.args[0], fr.module)
@@ -254,8 +261,29 @@ class SpecBuiltins:
         v = it.eval(node.args[0], fr)
         c = it.eval(node.args[1], fr)
         if isinstance(v.ty, TOpt):
-            v = SV(v.ty.inner, v.ty.val(v.term))
+            return SV(TBool, z3.And(z3.Not(v.ty.is_none(v.term)), it.cls_of(v.ty.val(v.term)) == it.cls_id(c.ci.qname)))
+        if isinstance(v.ty, TUnion):
+            for i, a in enumerate(v.ty.alts):
+                if isinstance(a, TObj):
+                    return SV(TBool, z3.And(v.ty.is_alt(i, v.term), it.cls_of(v.ty.proj(i, v.term)) == it.cls_id(c.ci.qname)))
+            return SV(TBool, z3.BoolVal(False))
+        if not isinstance(v.ty, TObj):
+            return SV(TBool, z3.BoolVal(False))
         return SV(TBool, it.cls_of(v.term) == it.cls_id(c.ci.qname))
+
+    def s_as_cls(self, it, node, fr):
+        """View a reference as an instance of a class (meaningful under cls_is)."""
+        fr = self._pure(fr)
+        v = it.eval(node.args[0], fr)
+        c = it.eval(node.args[1], fr)
+        if isinstance(v.ty, TOpt):
+            v = SV(v.ty.inner, v.ty.val(v.term))
+        if isinstance(v.ty, TUnion):
+            for i, a in enumerate(v.ty.alts):
+                if isinstance(a, TObj):
+                    v = SV(a, v.ty.proj(i, v.term))
+                    break
+        return SV(TObj(c.ci.qname, exact=True), v.term)
 
     def s_same_obj(self, it, node, fr):
         (a, b), fr = self._args(it, node, fr)
